@@ -18,6 +18,20 @@ def _search_fn(ctx):
 
 
 def r1_self_references_found(ctx):
+    from . import adaptexec
+    from .common import run_fallback
+    from .rewriter import law_all_names
+
+    n0 = len(ctx.obs)
+    try:
+        adaptexec.law(ctx, "all-references", "call_next-found", "plain-methods-renamed")
+        law_all_names(ctx)
+    except AnalysisError as e:
+        del ctx.obs[n0:]
+        run_fallback(ctx, _r1_self_references_found_shape, e, "adapter")
+
+
+def _r1_self_references_found_shape(ctx):
     repo = ctx.repo
     ad = A.adapter(repo)
     sf = _search_fn(ctx)
